@@ -56,6 +56,39 @@ example : filterResponse nAttacker kaminsky =
     some { kaminsky with additionals := [] } := by decide
 example : filterResponse nWwwVictim kaminsky = none := by decide
 
+/-! the DNSSEC-record stripping at the end of `resolve` only removes records -/
+
+@[simp] theorem stripRes_fst (cfg : Config) (q : Query) (x : St × Except Err Response) :
+    (stripRes cfg q x).1 = x.1 := by
+  obtain ⟨st, r⟩ := x
+  cases r <;> rfl
+
+theorem stripRes_ok {cfg : Config} {q : Query} {x : St × Except Err Response} {r' : Response}
+    (h : (stripRes cfg q x).2 = .ok r') :
+    ∃ r, x.2 = .ok r ∧ r' = stripDnssec cfg.dnssecOk q r := by
+  obtain ⟨st, r⟩ := x
+  cases r with
+  | error e => cases h
+  | ok r => exact ⟨r, rfl, by cases h; rfl⟩
+
+theorem stripRes_err {cfg : Config} {q : Query} {x : St × Except Err Response} {e : Err}
+    (h : (stripRes cfg q x).2 = .error e) : x.2 = .error e := by
+  obtain ⟨st, r⟩ := x
+  cases r with
+  | error e' => exact h
+  | ok r => cases h
+
+theorem stripDnssec_mem {d : Bool} {q : Query} {r : Response} {x : Record}
+    (h : x ∈ (stripDnssec d q r).all) : x ∈ r.all := by
+  unfold stripDnssec at h
+  split at h
+  · exact h
+  · simp only [Response.all, List.mem_append, List.mem_filter] at h ⊢
+    rcases h with (h | h) | h
+    · exact Or.inl (Or.inl h.1)
+    · exact Or.inl (Or.inr h.1)
+    · exact Or.inr h.1
+
 /-! ## 2. a small framework: state invariants preserved by every function of the recursor
 
 The recursor changes its state only through `poolLookup`, `lookup`, the insertion of a freshly
@@ -484,6 +517,7 @@ theorem resolveMiss_stable (S : Stable cfg net I PoolOK Ask Fit RespOK) {rec : R
     · rename_i st2 e heq2; rw [heq2] at ha; exact ha
     · rename_i st2 resp heq2
       rw [heq2] at ha
+      rw [stripRes_fst]
       exact resolveCnames_stable S hrec resp q d1 st2 ha
 
 theorem resolveFuel_stable (S : Stable cfg net I PoolOK Ask Fit RespOK) :
@@ -497,7 +531,8 @@ theorem resolveFuel_stable (S : Stable cfg net I PoolOK Ask Fit RespOK) :
     split
     · exact h
     · split
-      · exact resolveCnames_stable S ih _ q d st h
+      · rw [stripRes_fst]
+        exact resolveCnames_stable S ih _ q d st h
       · exact resolveMiss_stable S ih q d st h
     · exact resolveMiss_stable S ih q d st h
 
@@ -1232,7 +1267,7 @@ theorem chaseLoop_cost {R : Nat} (hN : NetBound net N) {rec : ResRec} (hrec : Re
           · rename_i st1 r' heq
             rw [heq] at hc hs
             dsimp only at hc
-            have := ih (chain ++ r'.answers.filter fun x => x.rtype == qtype || x.rtype == T_CNAME) st1 hs
+            have := ih (chain ++ r'.answers.filter (chainKeeps qtype)) st1 hs
             omega
 
 theorem resolveCnames_cost {R : Nat} (hN : NetBound net N) {rec : ResRec} (hrec : ResCost N R rec)
@@ -1298,6 +1333,7 @@ theorem resolveMiss_cost {R : Nat} (hN : NetBound net N) {rec : ResRec} (hrec : 
       dsimp only at ha1 ha2
       have := resolveCnames_cost (cfg := cfg) hN hrec resp q d1 st2 ha
       rw [ha2, hc1] at this
+      rw [stripRes_fst]
       omega
 
 theorem resolveFuel_cost (hN : NetBound net N) :
@@ -1315,6 +1351,7 @@ theorem resolveFuel_cost (hN : NetBound net N) :
     · rename_i r0 _
       split
       · have := resolveCnames_cost (cfg := cfg) hN ih r0 q d st h
+        rw [stripRes_fst]
         omega
       · exact resolveMiss_cost hN ih q d st h
     · exact resolveMiss_cost hN ih q d st h
@@ -1402,7 +1439,9 @@ theorem resolveMiss_cn {rec : ResRec} (hrec : CnOK rec) (q : Query) (depth : Nat
     · rename_i st2 resp heq2
       rw [heq2] at ha2
       dsimp only at ha2
-      exact resolveCnames_cn hrec resp q d1 st2 (by omega)
+      have hc := resolveCnames_cn (cfg := cfg) hrec resp q d1 st2 (by omega)
+      rw [stripRes_fst]
+      exact ⟨hc.1, fun r hr => by obtain ⟨r0, h0, _⟩ := stripRes_ok hr; exact hc.2 r0 h0⟩
 
 theorem resolveFuel_cn : ∀ f, CnOK (resolveFuel cfg net f) := by
   intro f
@@ -1413,8 +1452,11 @@ theorem resolveFuel_cn : ∀ f, CnOK (resolveFuel cfg net f) := by
     unfold resolveFuel
     split
     · exact ⟨by dsimp only; omega, fun r hr => by cases hr⟩
-    · split
-      · exact resolveCnames_cn ih _ q d st h
+    · rename_i r0 _
+      split
+      · have hc := resolveCnames_cn (cfg := cfg) ih r0 q d st h
+        rw [stripRes_fst]
+        exact ⟨hc.1, fun r hr => by obtain ⟨r1, h1, _⟩ := stripRes_ok hr; exact hc.2 r1 h1⟩
       · exact resolveMiss_cn ih q d st h
     · exact resolveMiss_cn ih q d st h
 
@@ -1660,7 +1702,10 @@ theorem resolveMiss_ret {rec : ResRec} (hrec : ResRet rec) (q : Query) (depth : 
     · rename_i st2 resp heq2
       rw [heq2] at ha hret
       try simp only [heq2]
-      exact resolveCnames_ret S hrec resp q d1 st2 ha (hret resp rfl) r hr
+      rw [stripRes_fst]
+      obtain ⟨r0, h0, rfl⟩ := stripRes_ok hr
+      intro x hx
+      exact resolveCnames_ret S hrec resp q d1 st2 ha (hret resp rfl) r0 h0 x (stripDnssec_mem hx)
 
 theorem resolveFuel_ret : ∀ f, ResRet (resolveFuel cfg net f) := by
   intro f
@@ -1680,8 +1725,11 @@ theorem resolveFuel_ret : ∀ f, ResRet (resolveFuel cfg net f) := by
       split at hr
       · rename_i haa
         simp only [haa, ↓reduceIte]
+        rw [stripRes_fst]
+        obtain ⟨r1, h1, rfl⟩ := stripRes_ok hr
+        intro x hx
         exact resolveCnames_ret (fun a => askedMem_stable cfg net a) ih r0 q d st h
-          (prov_of_clean h hg) r hr
+          (prov_of_clean h hg) r1 h1 x (stripDnssec_mem hx)
       · rename_i haa
         simp only [haa]
         exact resolveMiss_ret ih q d st h r hr
@@ -1979,8 +2027,8 @@ end Ex
 
 /-! ## 10. the stub resolver's alias chasing -/
 
-theorem stubLookup_le (up : Query → Except Err Response) :
-    ∀ (f : Nat) (q : Query) (d : Nat) (p : Bool), (stubLookup up f q d p).2 ≤ f := by
+theorem stubLookup_le (up : Query → Except Err Response) (pi : Bool) :
+    ∀ (f : Nat) (q : Query) (d : Nat) (p : Bool), (stubLookup up pi f q d p).2 ≤ f := by
   intro f
   induction f with
   | zero => intro q d p; simp [stubLookup]
@@ -1990,19 +2038,19 @@ theorem stubLookup_le (up : Query → Except Err Response) :
     split
     · simp
     · simp
-    · rename_i target _
-      have := ih ⟨target, q.qtype⟩ (d + 1) true
+    · rename_i target cn _
+      have := ih ⟨target, q.qtype⟩ (d + 1) (p || (pi && cn))
       dsimp only
       omega
 
 /-- **`stub_alias_chain_le`**: whatever the upstream answers (alias loops included), one stub
 lookup sends at most `MAX_QUERY_DEPTH` (8) upstream queries, i.e. follows at most 7 aliases. -/
-theorem stub_alias_chain_le (up : Query → Except Err Response) (q : Query) :
-    (stubResolve up q).2 ≤ MAX_QUERY_DEPTH :=
-  stubLookup_le up _ q 0 false
+theorem stub_alias_chain_le (up : Query → Except Err Response) (q : Query) (pi : Bool) :
+    (stubResolve up q pi).2 ≤ MAX_QUERY_DEPTH :=
+  stubLookup_le up pi _ q 0 false
 
-theorem stubDecide_alias {found was p : Bool} {d : Nat} {s t : Name}
-    (h : stubDecide found was p d s = .alias t) : depthExhausted d = false := by
+theorem stubDecide_alias {found was p c c' : Bool} {d : Nat} {s t : Name}
+    (h : stubDecide found was p d s c = .alias t c') : depthExhausted d = false := by
   unfold stubDecide at h
   split at h
   · cases h
@@ -2012,8 +2060,8 @@ theorem stubDecide_alias {found was p : Bool} {d : Nat} {s t : Name}
       exact hc.2
     · cases h
 
-theorem stubClassify_alias {q : Query} {p : Bool} {d : Nat} {u : Except Err Response} {t : Name}
-    (h : stubClassify q p d u = .alias t) : depthExhausted d = false := by
+theorem stubClassify_alias {q : Query} {p c : Bool} {d : Nat} {u : Except Err Response} {t : Name}
+    (h : stubClassify q p d u = .alias t c) : depthExhausted d = false := by
   unfold stubClassify at h
   split at h
   · cases h
@@ -2023,9 +2071,9 @@ theorem stubClassify_alias {q : Query} {p : Bool} {d : Nat} {u : Except Err Resp
 
 /-- the recursion of `inner_lookup` is cut by the `DepthTracker`, never by the model's fuel: with
 `f` = distance to `MAX_QUERY_DEPTH`, more fuel changes nothing -/
-theorem stub_fuel_irrelevant (up : Query → Except Err Response) :
+theorem stub_fuel_irrelevant (up : Query → Except Err Response) (pi : Bool) :
     ∀ (f : Nat) (q : Query) (d : Nat) (p : Bool), d + f = MAX_QUERY_DEPTH → 1 ≤ f →
-      ∀ k, stubLookup up (f + k) q d p = stubLookup up f q d p := by
+      ∀ k, stubLookup up pi (f + k) q d p = stubLookup up pi f q d p := by
   intro f
   induction f with
   | zero => intro q d p _ h; omega
@@ -2037,12 +2085,12 @@ theorem stub_fuel_irrelevant (up : Query → Except Err Response) :
     split
     · rfl
     · rfl
-    · rename_i target hcl
+    · rename_i target cn hcl
       have hex := stubClassify_alias hcl
       have hf : 1 ≤ f := by
         simp only [depthExhausted, decide_eq_false_iff_not, Nat.not_le] at hex
         omega
-      rw [ih _ (d + 1) true (by omega) hf k]
+      rw [ih _ (d + 1) (p || (pi && cn)) (by omega) hf k]
 
 namespace Ex
 /-- an alias loop: every answer is `q CNAME (the other name)` -/
@@ -2207,7 +2255,7 @@ theorem resolveMiss_congr {r1 r2 : ResRec} (q : Query) (d : Nat) (st : St)
     split
     · rfl
     · rename_i st2 resp _
-      exact resolveCnames_congr resp q d1 (fun hl q' st' => h q' (d1 + 1) st' (by omega) hl) st2
+      rw [resolveCnames_congr resp q d1 (fun hl q' st' => h q' (d1 + 1) st' (by omega) hl) st2]
 
 theorem resolveFuel_succ : ∀ f, 1 ≤ f → ∀ d, cfg.recursionLimit + 1 ≤ f + d → ∀ q st,
     resolveFuel cfg net (f + 1) q d st = resolveFuel cfg net f q d st := by
@@ -2228,13 +2276,13 @@ theorem resolveFuel_succ : ∀ f, 1 ≤ f → ∀ d, cfg.recursionLimit + 1 ≤ 
     show (match rcGet st.rcache q with
       | some (.error e) => ((st, .error e) : St × Except Err Response)
       | some (.ok r) =>
-        if r.aa then resolveCnames cfg (resolveFuel cfg net (f + 1)) r q d st
+        if r.aa then stripRes cfg q (resolveCnames cfg (resolveFuel cfg net (f + 1)) r q d st)
         else resolveMiss cfg net (resolveFuel cfg net (f + 1)) q d st
       | none => resolveMiss cfg net (resolveFuel cfg net (f + 1)) q d st) =
       (match rcGet st.rcache q with
       | some (.error e) => ((st, .error e) : St × Except Err Response)
       | some (.ok r) =>
-        if r.aa then resolveCnames cfg (resolveFuel cfg net f) r q d st
+        if r.aa then stripRes cfg q (resolveCnames cfg (resolveFuel cfg net f) r q d st)
         else resolveMiss cfg net (resolveFuel cfg net f) q d st
       | none => resolveMiss cfg net (resolveFuel cfg net f) q d st)
     simp only [e1, e2]
@@ -2655,7 +2703,7 @@ theorem answerFilter_allowed {f : Acs} {r r' : Response} (h : answerFilter f r =
 
 theorem noIp_of_rtype {x : Record} (h : x.rtype = T_SOA ∨ x.rtype = T_NS) : x.data.ip? = none := by
   cases hd : x.data <;>
-    simp_all [Record.rtype, RData.rtype, RData.ip?, T_SOA, T_NS, T_A, T_AAAA, T_CNAME, T_TXT]
+    simp_all [Record.rtype, RData.rtype, RData.ip?, T_SOA, T_NS, T_A, T_AAAA, T_CNAME, T_TXT, T_SRV, T_RRSIG]
 
 theorem addrAllowed_of_noIp {f : Acs} {x : Record} (h : x.data.ip? = none) :
     addrAllowed f x = true := by
@@ -2948,7 +2996,9 @@ theorem resolveMiss_ans {rec : ResRec} (hrec : ResAns cfg rec) (q : Query) (dept
     · cases hr
     · rename_i st2 resp heq2
       rw [heq2] at ha hret
-      exact resolveCnames_ans hrec resp q d1 st2 ha (hret resp rfl) r hr
+      obtain ⟨r0, h0, rfl⟩ := stripRes_ok hr
+      intro x hx
+      exact resolveCnames_ans hrec resp q d1 st2 ha (hret resp rfl) r0 h0 x (stripDnssec_mem hx)
 
 theorem resolveFuel_ans : ∀ f, ResAns cfg (resolveFuel cfg net f) := by
   intro f
@@ -2964,7 +3014,9 @@ theorem resolveFuel_ans : ∀ f, ResAns cfg (resolveFuel cfg net f) := by
     · rename_i r0 hg
       obtain ⟨k, hk⟩ := rcGet_mem hg
       split at hr
-      · exact resolveCnames_ans ih r0 q d st h (h k r0 hk) r hr
+      · obtain ⟨r1, h1, rfl⟩ := stripRes_ok hr
+        intro x hx
+        exact resolveCnames_ans ih r0 q d st h (h k r0 hk) r1 h1 x (stripDnssec_mem hx)
       · exact resolveMiss_ans ih q d st h r hr
     · exact resolveMiss_ans ih q d st h r hr
 
@@ -3155,7 +3207,7 @@ theorem resolveMiss_errAns {rec : ResRec} (hrec : ResErrAns cfg rec) (q : Query)
       exact hae e rfl
     · rename_i st2 resp heq2
       rw [heq2] at ha
-      exact resolveCnames_errAns hrec resp q d1 st2 ha e he
+      exact resolveCnames_errAns hrec resp q d1 st2 ha e (stripRes_err he)
 
 theorem resolveFuel_errAns : ∀ f, ResErrAns cfg (resolveFuel cfg net f) := by
   intro f
@@ -3176,7 +3228,7 @@ theorem resolveFuel_errAns : ∀ f, ResErrAns cfg (resolveFuel cfg net f) := by
       exact ansNeg_of_cache h hg
     · rename_i r0 hg
       split at he
-      · exact resolveCnames_errAns ih r0 q d st h e he
+      · exact resolveCnames_errAns ih r0 q d st h e (stripRes_err he)
       · exact resolveMiss_errAns ih q d st h e he
     · exact resolveMiss_errAns ih q d st h e he
 
@@ -3346,7 +3398,7 @@ theorem collectNs_len {f : Acs} {R : Nat} {st : St} (hc : CacheBoundR R st) (par
       have := ih k m config need hm
       rename_i hnot
       have hfalse : isNsRec r = false := by
-        cases hd : r.data <;> simp_all [isNsRec, Record.rtype, RData.rtype, T_NS, T_A, T_AAAA, T_CNAME, T_SOA, T_TXT]
+        cases hd : r.data <;> simp_all [isNsRec, Record.rtype, RData.rtype, T_NS, T_A, T_AAAA, T_CNAME, T_SOA, T_TXT, T_SRV, T_RRSIG]
       simp only [List.filter_cons, hfalse, Bool.false_eq_true, ↓reduceIte] at hsub ⊢
       exact this
 
@@ -3767,7 +3819,8 @@ theorem resolveMiss_err {rec : ResRec} (hrec : ResErr rec) (q : Query) (depth : 
       exact hae e rfl
     · rename_i st2 resp heq2
       rw [heq2] at ha
-      exact resolveCnames_err hrec resp q d1 st2 ha e he
+      rw [stripRes_fst]
+      exact resolveCnames_err hrec resp q d1 st2 ha e (stripRes_err he)
 
 theorem resolveFuel_err : ∀ f, ResErr (resolveFuel cfg net f) := by
   intro f
@@ -3790,7 +3843,8 @@ theorem resolveFuel_err : ∀ f, ResErr (resolveFuel cfg net f) := by
       split at he
       · rename_i haa
         simp only [haa, ↓reduceIte]
-        exact resolveCnames_err ih r0 q d st h e he
+        rw [stripRes_fst]
+        exact resolveCnames_err ih r0 q d st h e (stripRes_err he)
       · rename_i haa
         simp only [haa]
         exact resolveMiss_err ih q d st h e he
